@@ -114,7 +114,7 @@ class C09(Prop):
     def cases(self, rng: random.Random, tier: str) -> Iterable[dict]:
         # every dedicated family is visited at least twice per run, whatever the seed; the rest is drawn at random
         closure_variant = 0
-        forced = [0.04, 0.11, 0.16, 0.16, 0.21, 0.245, 0.28, 0.28, 0.32, 0.35, 0.35, 0.35, 0.38, 0.41, 0.45, 0.48, 0.51, 0.7, 0.7, 0.7] * 2
+        forced = [0.04, 0.11, 0.16, 0.16, 0.21, 0.245, 0.28, 0.28, 0.32, 0.35, 0.35, 0.35, 0.38, 0.41, 0.45, 0.48, 0.51, 0.53, 0.7, 0.7, 0.7] * 2
         while True:
             r = forced.pop() if forced else rng.random()
             if r < 0.08:
@@ -296,6 +296,18 @@ class C09(Prop):
                     progs.reverse()
                 yield {"kind": "runs2", "programs": progs, "values": [[q, v] for q, v in zip(params, vals)],
                        "backend": rng.choice(["mem", "lru2", "disk"]), "runner": rng.choice(["sync", "async"])}
+                continue
+            if 0.52 <= r < 0.54:
+                # a cacheable node that UPDATES ITS ARGUMENT in place (push onto the list it was given): the entry is stored under the arguments
+                # it was CALLED with, so the same call made again is a hit (and a call whose arguments equal the mutated state is another call)
+                x = [rng.randint(0, 3) for _ in range(rng.randint(1, 3))]
+                nodes = [{"name": "grow", "kind": "fn", "params": [["lst", None]], "dataOuts": ["n"], "body": {"b": "mutAppend", "t": "grow", "k": 7}, "cache": True},
+                         {"name": "after", "kind": "fn", "params": [["n", None]], "dataOuts": ["fin"], "body": {"b": "tag", "t": "after"}}]
+                rng.shuffle(nodes)
+                seq = [x, x, x + [7], x][: rng.randint(2, 4)]
+                yield {"kind": "runs", "program": [{"name": "g0", "nodes": nodes, "bound": []}], "check_reinvoke": True,
+                       "runs": [{"values": [["lst", {"l": list(v)}]], "runner": rng.choice(["sync", "async"])} for v in seq],
+                       "backend": rng.choice(["mem", "lru4", "disk"])}
                 continue
             if 0.50 <= r < 0.52:
                 # a cacheable multi-target gate whose routing function answers with ONE list object that it keeps and rewrites on every call:
